@@ -106,7 +106,10 @@ def run(ck, prog):
     pruning(ck, prog, CT + "find_radius$", "CoverTree::find_radius prunes by radius + max_dist",
             lambda t: t[0] == "arg" and t[1] == 3, frozenset("nz"))
     pruning(ck, prog, CT + "find$", "CoverTree::find prunes by kth-distance + max_dist",
-            lambda t: t[0] == "call" and t[1].endswith("HeapSelection::<T>::peek"), frozenset("n"))
+            lambda t: t[0] == "call" and t[1].endswith("HeapSelection::<T>::peek"), frozenset("nz"))
+    # d == bound + max_dist must descend too: the bound is the k-th best distance seen so far, which a self-child of a
+    # duplicate group (max_dist == 0) equals exactly - with a strict test the group that set the bound is pruned and fewer
+    # than k neighbours come back (seeded change C04-r7-1)
     ck.floor("E2g-pruning", 2)
 
 
@@ -506,3 +509,128 @@ def run(ck, prog):
     _run_pre_config(ck, prog)
     from sa import config
     config.run_rule(ck, prog, set(DIMENSION_FILES))
+
+
+# ------------------------------------------------------------------ batch_insert: sets coming back from a child lose the child's distance level
+_run_pre_poplevel = run
+
+
+def batch_insert_pops_level(ck, prog):
+    """dist_split pushes, for every point it hands to a new child, the distance to that child on the point's distance stack;
+    the parent's bookkeeping (max_dist = max over consumed_set of the TOP of each stack, the cover-radius test for point_set /
+    far) reads the top as the distance to the PARENT.  So every DistanceSet that returns from the child-level sets (the local
+    vectors passed to the recursive call) into point_set / far / consumed_set has that level removed first: no bulk
+    append / extend from such a local set, and every push of an element taken from one is dominated by a remove / pop on that
+    element's stack."""
+    from sa.prov import Resolver
+    rule, inst = "E2-pairing", "batch_insert: a set returned from the child level is popped before it joins the parent's sets"
+    try:
+        b = prog.one(CT + "batch_insert$")
+    except AnchorError as e:
+        ck.violation(rule, inst, "batch_insert", "", expected="anchor exists", found=f"anchor vanished: {e}")
+        return
+    res = Resolver(b)
+
+    def base_local(o):
+        """the Vec local behind a `&mut v` / reborrow operand"""
+        if o["k"] not in ("move", "copy"):
+            return None
+        l, seen = o["p"]["l"], set()
+        while l not in seen:
+            seen.add(l)
+            ds = [d for d in b.defs.get(l, []) if d.kind == "assign"]
+            if len(ds) == 1 and ds[0].data["r"]["k"] in ("ref", "rawptr"):
+                p = ds[0].data["r"]["p"]
+                if any(e != "*" for e in p["pr"]):
+                    return None
+                l = p["l"]
+                if not p["pr"]:
+                    return l
+            elif len(ds) == 1 and ds[0].data["r"]["k"] == "use" and ds[0].data["r"]["o"]["k"] in ("move", "copy") and not ds[0].data["r"]["o"]["p"]["pr"]:
+                l = ds[0].data["r"]["o"]["p"]["l"]
+            else:
+                break
+        return l
+    # child-level sets: non-parameter locals handed to the recursive call
+    inner = set()
+    for bb, t in b.calls():
+        f = t.get("f")
+        if f and f["path"].endswith("::batch_insert"):
+            for a in t["args"]:
+                l = base_local(a)
+                if l is not None and not b.is_arg(l) and "Vec<" in b.local_ty(l) and "DistanceSet" in b.local_ty(l):
+                    inner.add(l)
+    if not inner:
+        ck.note(f"{inst}: no local set is handed to a recursive call: no instance")
+        return
+    names = sorted(b.local_name(l) or f"_{l}" for l in inner)
+    n = 0
+    for bb, t in b.calls():
+        f = t.get("f")
+        if not f:
+            continue
+        nm = f["path"].split("::")[-1]
+        if nm in ("append", "extend", "extend_from_slice") and len(t["args"]) == 2:
+            src = base_local(t["args"][1])
+            if src in inner:
+                n += 1
+                ck.violation(rule, inst, b.path, b.where(bb), ordinal=n, expected="element-wise transfer with `set.dist.remove(last)` first",
+                             found=f"bulk {nm} from `{b.local_name(src)}`: the child-relative distance stays on top of every stack (max_dist is then computed from distances to the wrong node)")
+        elif nm == "push" and len(t["args"]) == 2 and t["args"][1]["k"] in ("move", "copy") and not t["args"][1]["p"]["pr"]:
+            e = t["args"][1]["p"]["l"]
+            if "DistanceSet" not in b.local_ty(e) or "Vec<" in b.local_ty(e):
+                continue
+            seen = set()
+            while e not in seen:                                   # `push(move _tmp)` with `_tmp = move set`
+                seen.add(e)
+                ds = b.defs.get(e, [])
+                if len(ds) == 1 and ds[0].kind == "assign" and ds[0].data["r"]["k"] == "use" and ds[0].data["r"]["o"]["k"] in ("move", "copy") \
+                        and not ds[0].data["r"]["o"]["p"]["pr"]:
+                    e = ds[0].data["r"]["o"]["p"]["l"]
+            term = res.local(e)
+            from_inner = any(s[0] in ("local", "phi") and s[1] in inner for s in subterms(term))
+            if not from_inner:
+                continue
+            n += 1
+            popped = False
+            for bb2, t2 in b.calls():
+                f2 = t2.get("f")
+                if not (f2 and f2["path"].split("::")[-1] in ("remove", "pop", "truncate") and b.dominates(bb2, bb) and t2["args"]):
+                    continue
+                a0 = t2["args"][0]
+                if a0["k"] in ("move", "copy"):
+                    for d in b.defs.get(a0["p"]["l"], []):
+                        if d.kind == "assign" and d.data["r"]["k"] == "ref" and d.data["r"]["p"]["l"] == e and d.data["r"]["p"]["pr"]:
+                            popped = True
+            if popped:
+                ck.ok(rule, inst, b.path, b.where(bb), f"`{b.local_name(e)}` from {names}: stack popped before the push")
+            else:
+                ck.violation(rule, inst, b.path, b.where(bb), ordinal=n, expected="`set.dist.remove(set.dist.len() - 1)` before the push",
+                             found=f"`{b.local_name(e)}` comes from a child-level set and is pushed with the child's distance still on top of its stack")
+    if n == 0:
+        ck.note(f"{inst}: nothing is transferred out of {names}: no instance")
+
+
+def run(ck, prog):
+    _run_pre_poplevel(ck, prog)
+    batch_insert_pops_level(ck, prog)
+
+
+EXPLANATION += (" batch_insert: every DistanceSet coming back from the child-level sets is popped (its child-relative distance removed) "
+                "before it joins point_set / far / consumed_set; no bulk append from those sets (two identical independent seeds).")
+
+
+# ------------------------------------------------------------------ the default metric is evaluated in difference form (C17's rule)
+_run_pre_metric = run
+
+
+def run(ck, prog):
+    _run_pre_metric(ck, prog)
+    # 'the k nearest under the metric': k-NN defaults to Euclidian; the expanded form |x|^2 + |y|^2 - 2 x.y cancels for data
+    # with a common offset and the neighbour order becomes garbage in both search structures
+    from sa import difference
+    from props import C17
+    difference.run_rule(ck, prog, [e for e in C17.DIFF_FNS if e[0].startswith("Euclidian")])
+
+
+EXPLANATION += " Default metric: Euclidian distance / squared_distance depend on their arguments only through x - y (C17's difference-form rule)."
